@@ -11,7 +11,7 @@ from .common import viol, short_exc, exc_site, solve_arrays
 PROPERTY = "C17"
 RULE = ("E3: 5 LP portfolios (contracts; + storage; + transport with a cost series; + multi-commodity; + structured asset with internal "
         "variables) x every present/future boundary 1..T-1 (T = 4, thorough also 6) x all multisets of 1..3 future price patterns out "
-        "of 5 (incl. all identical and identical to the base); present prices shared; distinct = canonical case; non-trivial = the "
+        "of 7 (incl. all identical and identical to the base); present prices shared; distinct = canonical case; non-trivial = the "
         "scenario optima differ (the present decision matters)")
 ASSUMPTIONS = ["scenario set = the problem's own prices + the samples (as documented: the original future counts as a further sample)",
                "EEV_j, wait-and-see mean, the extensive form of the two-stage problem and the max-min problem are solved by HiGHS on EAO's own arrays "
@@ -21,8 +21,8 @@ EXPLANATION = "full product of portfolios x boundaries x scenario multisets; def
 MIN_NONTRIVIAL_FRACTION = 0.2
 MAX_S = {"quick": 900, "thorough": 7200}
 
-PORTFOLIOS = ["contracts", "storage", "transport", "multicommodity", "structured"]
-FUTURES = ["zig", "rev", "fall", "peak", "flat"]
+PORTFOLIOS = ["contracts", "storage", "transport", "multicommodity", "structured", "coarse", "feeder"]
+FUTURES = ["zig", "rev", "fall", "peak", "flat", "low", "high"]   # low / high: the base pattern scaled (scenarios that do not cross)
 
 
 def assets(name):
@@ -40,6 +40,11 @@ def assets(name):
         return [mkt, mk2, dict(type="Transport", name="tr", nodes=["n1", "n2"], min_cap=0.0, max_cap=3.0, efficiency=0.9, costs_time_series="ec"), sto]
     if name == "multicommodity":
         return [mkt, mk2, dict(type="MultiCommodityContract", name="mc", nodes=["n1", "n2"], price="q", min_cap=0.0, max_cap=3.0, factors_commodities=[1.0, 0.5]), sto]
+    if name == "coarse":   # an asset on a coarser grid: its variables span two steps, the boundary can fall inside one
+        return [mkt, dict(type="SimpleContract", name="co", nodes=["n1"], price="q", min_cap=-2.0, max_cap=3.0, freq="12h"), sto]
+    if name == "feeder":   # a node with exactly one single-variable supplier (+1) and an outgoing transport (-1)
+        return [mkt, dict(type="SimpleContract", name="feed", nodes=["na"], price="q", min_cap=0.0, max_cap=3.0),
+                dict(type="Transport", name="ftr", nodes=["na", "n1"], min_cap=0.0, max_cap=4.0), sto]
     if name == "structured":
         inner = [dict(type="Storage", name="isto", nodes=["ni"], size=20.0, cap_in=1.0, cap_out=1.0, start_level=5.0, end_level=5.0),
                  dict(type="Transport", name="itr", nodes=["ni", "n1"], min_cap=-2.0, max_cap=2.0, efficiency=0.95)]
@@ -74,8 +79,12 @@ def prices_for(T, bd, fut):
     if fut is None:
         return {k: np.array(v) for k, v in base.items()}
     pat = FUTURES[fut]
-    other = {"zig": "rev", "rev": "fall", "fall": "peak", "peak": "flat", "flat": "zig"}[pat]
-    alt = S.make_prices(T, (pat, other))
+    if pat in ("low", "high"):
+        f = 0.5 if pat == "low" else 2.0
+        alt = {k: [x * f for x in v] for k, v in base.items()}
+    else:
+        other = {"zig": "rev", "rev": "fall", "fall": "peak", "peak": "flat", "flat": "zig"}[pat]
+        alt = S.make_prices(T, (pat, other))
     alt["ec"] = [x * (1.0 + 0.5 * fut) for x in alt["ec"]]
     out = {}
     for k in base:
